@@ -86,15 +86,53 @@ def run_one(args):
     return rec
 
 
+def neutral_control(module, prop, base_ctx, repo, noop=False):
+    """Negative control of the thorough tier: the rule is re-run on an in-memory, behaviour-preserving rewrite of every
+    repository module (locals renamed, re-emitted by ast.unparse, optionally a no-op statement per function) and must produce
+    exactly the findings it produces on the real tree."""
+    from sa.neutral import rewrite
+    name = 'neutral-control:' + ('noop' if noop else 'rename-locals')
+    rec = {'name': name, 'kind': 'neutral', 'file': 'all repository modules'}
+    ov = {}
+    for pkg in ('loki', 'lint_rules/lint_rules'):
+        for dp, dn, fn in os.walk(os.path.join(repo, pkg)):
+            dn[:] = [d for d in dn if d not in ('tests', '__pycache__')]
+            for f in fn:
+                if f.endswith('.py'):
+                    path = os.path.join(dp, f)
+                    try:
+                        out = rewrite(open(path, encoding='utf-8').read(), suffix='' if noop else '_nr', noop=noop)
+                    except SyntaxError:
+                        out = None
+                    if out is not None:
+                        ov[path] = out
+    try:
+        ctx = Ctx(prop, Model(repo, overlay=ov), quiet=True)
+        module.run(ctx)
+        base, got = _keys(base_ctx), _keys(ctx)
+        diff = sorted(base ^ got)
+        rec['new_findings'] = [list(k) for k in diff][:6]
+        rec['ok'] = not diff
+        rec['outcome'] = f'same findings on {len(ov)} rewritten modules' if not diff else f'VERDICT-CHANGED {diff[:3]}'
+    except AnalysisError as e:
+        rec['ok'] = False
+        rec['outcome'] = f'analysis-error on the neutral rewrite: {e}'
+    except Exception:      # pylint: disable=broad-except
+        rec['ok'] = False
+        rec['outcome'] = 'crash: ' + traceback.format_exc(limit=3)
+    return rec
+
+
 def run_mutants(module, prop, base_ctx, only_quick=False, workers=16, repo=None):
     repo = repo or base_ctx.model.repo
     muts = getattr(module, 'MUTANTS', [])
     idxs = [i for i, m in enumerate(muts) if (m.quick or not only_quick)]
     base_keys = [list(k) for k in _keys(base_ctx)]
     jobs = [(module.__name__, prop, i, repo, base_keys) for i in idxs]
+    extra = [] if only_quick else [neutral_control(module, prop, base_ctx, repo), neutral_control(module, prop, base_ctx, repo, noop=True)]
     if not jobs:
-        return []
+        return extra
     if len(jobs) <= 60 or workers <= 1:     # process start-up dominates in this sandbox (0.15 s per variant serial)
-        return [run_one(j) for j in jobs]
+        return [run_one(j) for j in jobs] + extra
     with ProcessPoolExecutor(max_workers=min(workers, len(jobs))) as ex:
         return list(ex.map(run_one, jobs))
